@@ -242,6 +242,23 @@ CHECKS = {
         "as an operation the owner may start), not as a resident-set measurement.",
    technique="Coq inductive invariant + quiescence theorem over the interleaving model + schedule-lockstep + deterministic-scheduler quiescence oracle",
    design="3/C08"),
+ "C07": dict(
+   text="Machine-checked proof (Coq 8.16.1) over an executable slice-granular model of the commit bookkeeping (arena blocks_inuse/committed/purge, "
+        "segment commit_mask/purge_mask, spans of live pages, ghost kernel; every mprotect answered by a failure oracle, every search/clock/address/"
+        "mmap/munmap decision an argument): for every operation sequence and every pattern of refusals commit_Inv holds -- the arena committed bit "
+        "and the commit_mask bit imply accessible; live pages are committed, unpurged, disjoint and accessible; a page handed out is accessible "
+        "until freed; a failing call keeps the live pages; the restore path is taken only on a refused commit; purge and collect never touch a live "
+        "slice; granted requests make the next allocation succeed. The two pre-repair behaviours (two fix: commits in /repo) are shown unsound by "
+        "computation. Tie: exact lockstep of the extracted model with the real allocator under the OS shim (arena bits, segment masks, ledger "
+        "accessibility after every call, release and protecting-decommit builds), plus fault enumeration on the real allocator: for several "
+        "workloads and option settings every position k of the OS-call sequence is failed once and persistently, with the shadow oracles (no "
+        "crash, contents, overlap, accessibility of what is handed out) running throughout and recovery checked after the failures stop.",
+   note="One arena; the model's direct-OS segments are proved but not exercised by the lockstep harness. No pinned/large pages, MI_SECURE guard "
+        "slices, over-aligned huge blocks or abandoned segments in the model. 'Never crashes' is observed (exit status), not proved; thread-metadata "
+        "allocation failure is not exercised. Observation (not a soundness defect): after a refused first span commit a fresh segment stays cached "
+        "with no used page until a later allocation uses it (C07_empty_segment_cached_after_refusal); 'gives everything back' is C11's clause.",
+   technique="Coq inductive invariant over a failure-oracle model + exact model/implementation lockstep under an OS shim + OS-call fault enumeration",
+   design="3/C07"),
 }
 NOT_YET = {}
 def main():
